@@ -17,9 +17,21 @@ model -> code : spec/HMM.tla builds cases step by step (states, integer weights
                 vector/matrix wrappers, classifiers, constrained / hierarchical
                 HMM with trivial constraints).  spec/Mixture.tla does the same
                 for mixtures (all component subsets).
+histories     : spec/HMMHist.tla keeps ONE mixture / HMM object alive through a
+                history of inference calls and parameter changes (state: the
+                current parameters `cur` and the call log): a word over a small
+                alphabet of calls (identical arguments every time they recur)
+                and changes (SetParameters, SetStartStates, SetFinalStates,
+                Clone).  Every call must equal the enumeration for the
+                parameters current at that moment - no hidden state may be
+                carried between calls.  Replayed on one real object per
+                implementation (driver kind "hist").
 code -> model : seeded random models are run through the library by the
                 recorder; spec/HMMTrace.tla re-enumerates the paths of every
-                logged call and accepts the logged fixed-point results.
+                logged call and accepts the logged fixed-point results.  A
+                third of the trials are histories on one object: the trace
+                specification tracks the current parameters through the logged
+                changes and accepts a call only for exactly those parameters.
 """
 import json
 import os
@@ -48,6 +60,12 @@ def mix_consts(mink, maxk, wvals, evals, maxd, nsym=2):
             "NSym": str(nsym), "MaxD": str(maxd), "Emit": "TRUE"}
 
 
+def hist_consts(kind, minm, maxm, maxn, wvals, evals, smap, ncalls, nchanges, steps, pool, nsym=2):
+    return {"Kind": Q(kind), "MinM": str(minm), "MaxM": str(maxm), "MaxN": str(maxn), "WVals": S(wvals), "EVals": S(evals),
+            "EDen": "4", "NSym": str(nsym), "SmapMode": Q(smap), "NCalls": str(ncalls), "NChanges": str(nchanges),
+            "Steps": str(steps), "PoolMode": Q(pool), "Emit": "TRUE"}
+
+
 # (label, kind, consts, simulate traces per worker (None = exhaustive breadth-first search), timeout)
 FAMILIES = {
     "quick": [
@@ -59,6 +77,12 @@ FAMILIES = {
         ("sim3", "hmm", hmm_consts(2, 3, 1, 4, 2, [0, 1, 2], 0, [0, 1, 2, 3], "all", "all", "all"), 4000, 600),
         ("mix2", "mix", mix_consts(1, 2, [0, 1, 2], [0, 1, 3], 2), None, 300),
         ("mixsim", "mix", mix_consts(3, 4, [0, 1, 2, 3], [0, 1, 2, 3], 3), 500, 300),
+        # histories on one object.  Fixed alphabet (2 calls, SetParameters, Clone): every 2-component mixture with
+        # weights/emissions from two values and EVERY word of length 4
+        ("histmix", "hist", hist_consts("mix", 2, 2, 1, [1, 2], [1, 3], "id", 2, 2, 4, "fixed"), None, 300),
+        # random alphabets (2 calls, 2 changes) and random words of length 6
+        ("histmixsim", "hist", hist_consts("mix", 2, 4, 3, [0, 1, 2, 3], [0, 1, 2, 3], "id", 2, 2, 6, "free"), 1000, 300),
+        ("histhmmsim", "hist", hist_consts("hmm", 2, 3, 3, [0, 1, 2], [0, 1, 2, 3], "all", 2, 2, 6, "free"), 500, 600),
     ],
     "thorough": [
         # all zero patterns, all canonical maps, all restrictions, every sequence of length 1..4, three query pairs
@@ -73,6 +97,13 @@ FAMILIES = {
         ("sim4", "hmm", hmm_consts(4, 4, 5, 6, 1, [0, 1, 2, 3, 4], 4, [0, 1, 2, 3], "all", "all", "all"), 25, 3000),
         ("mix3", "mix", mix_consts(1, 3, [0, 1, 2], [0, 1, 3], 2), None, 1200),
         ("mixsim", "mix", mix_consts(3, 4, [0, 1, 2, 3], [0, 1, 2, 3], 3), 5000, 600),
+        ("histmix", "hist", hist_consts("mix", 2, 3, 2, [1, 2], [1, 3], "id", 2, 2, 5, "fixed"), None, 1200),
+        # every 2-state HMM with weights 0/1, fixed alphabet (2 calls, SetParameters, SetFinalStates, Clone), every word of length 4
+        ("histhmm", "hist", hist_consts("hmm", 2, 2, 3, [0, 1], [1, 3], "id", 2, 3, 4, "fixed"), None, 1800),
+        ("histmixsim", "hist", hist_consts("mix", 2, 4, 3, [0, 1, 2, 3], [0, 1, 2, 3], "id", 2, 2, 6, "free"), 8000, 900),
+        ("histmixsim3", "hist", hist_consts("mix", 2, 4, 3, [0, 1, 2, 3], [0, 1, 2, 3], "id", 3, 3, 8, "free"), 3000, 900),
+        ("histhmmsim", "hist", hist_consts("hmm", 2, 3, 3, [0, 1, 2], [0, 1, 2, 3], "all", 2, 2, 6, "free"), 5000, 1800),
+        ("histhmmsim3", "hist", hist_consts("hmm", 2, 3, 4, [0, 1, 2], [0, 1, 2, 3], "all", 3, 3, 8, "free"), 1500, 1800),
     ],
 }
 RECORD = {"quick": 1500, "thorough": 15000}      # recorder trials (about 4 events each)
@@ -80,13 +111,16 @@ WORKERS = 8
 NEED_FEATURES = ["start_restricted", "final_restricted", "state_map_not_identity", "zero_likelihood_sequence",
                  "viterbi_tie", "two_sequences", "length_one", "zero_transition_or_initial_weight",
                  "zero_posterior_query", "three_or_more_states", "baum_welch_step_compared", "zero_emission"]
+NEED_HIST = ["same_call_repeated_after_parameter_change", "same_call_back_to_back", "calls_alternating_a_b_a",
+             "set_parameters", "set_start_states", "set_final_states", "clone"]
+MODULES = {"hmm": ("HMM", "HMM.cfg"), "mix": ("Mixture", "Mixture.cfg"), "hist": ("HMMHist", "HMMHist.cfg")}
 
 
 def generate(ctx, label, kind, consts, sim, timeout):
     out = ctx.path("cases-%s.ndjson" % label)
-    module, cfg = ("HMM", "HMM.cfg") if kind == "hmm" else ("Mixture", "Mixture.cfg")
+    module, cfg = MODULES[kind]
     res = ctx.tlc(module, cfg, workers=WORKERS, timeout=timeout, json_out=out, consts=consts, label=label,
-                  simulate=("num=%d" % sim) if sim else None, depth=40 if sim else None)
+                  simulate=("num=%d" % sim) if sim else None, depth=60 if sim else None)
     if res.json_count == 0:
         raise vlib.Infra("no cases generated for " + label)
     if sim:
@@ -142,7 +176,7 @@ def trace_violation(ctx, clean, bad, why, seed, ntrials):
 
 def run(ctx):
     tier = ctx.tier
-    for mod in ("HMM", "Mixture", "HMMTrace"):
+    for mod in ("HMM", "Mixture", "HMMHist", "HMMTrace"):
         ctx.sany(mod)
     # 1. TLC: enumerate / simulate cases, check mechanism = contract on each, print them
     gen = []
@@ -155,6 +189,7 @@ def run(ctx):
     comparisons = 0
     drift = 0
     feats = {}
+    hfeats = {}
     per_family = {}
     for label, kind, cases, n, sim in gen:
         summ = replay_cases(ctx, binary, cases, kind, label)
@@ -168,6 +203,8 @@ def run(ctx):
         for k, v in summ.get("features", {}).items():
             if kind == "hmm":
                 feats[k] = feats.get(k, 0) + v
+        for k, v in summ.get("history_features", {}).items():
+            hfeats[k] = hfeats.get(k, 0) + v
         if summ.get("cases", 0) != n and not summ.get("aborted"):
             raise vlib.Infra("replay of %s executed %s of %d cases" % (label, summ.get("cases"), n))
         with open(cases) as f:
@@ -176,6 +213,7 @@ def run(ctx):
             label, summ.get("cases", 0), summ.get("comparisons", 0), summ.get("mismatches", 0)))
     # vacuity: the interesting features must really occur
     missing = [k for k in NEED_FEATURES if feats.get(k, 0) == 0]
+    missing += [k for k in NEED_HIST if hfeats.get(k, 0) == 0]
     if missing and not ctx.violations:
         raise vlib.Infra("vacuous generation: features never exercised: %s" % missing)
     # 3. code -> model: recorded calls validated by HMMTrace.tla
@@ -191,7 +229,7 @@ def run(ctx):
     if ok:
         done = []
         for op, field in (("logpdf", "v"), ("marginals", "marg"), ("viterbi", "path"), ("posterior", "v")):
-            idx = next((i for i, e in enumerate(clean) if e["e"] == "hmm" and e["op"] == op and not e["zero"] and i > 10
+            idx = next((i for i, e in enumerate(clean) if e["e"] == "hmm" and e["h"] == 0 and e["op"] == op and not e["zero"] and i > 10
                         and (op != "viterbi" or (e["m"] > 1))), None)
             if idx is None:
                 raise vlib.Infra("self-test: no %s event" % op)
@@ -219,7 +257,24 @@ def run(ctx):
             if ok2 or bad2 != idx + 1:
                 raise vlib.Infra("binding self-test failed (%s): corrupted trace accepted=%s at=%s want=%s" % (op, ok2, bad2, idx + 1))
             done.append("%s@%d" % (op, idx + 1))
-        if len(done) < 3:
+        # a dropped parameter change: the next call on the object is logged with parameters that are not the
+        # current ones of the specification's state -> rejected at that call
+        idx = next((i for i, e in enumerate(clean) if e["e"] in ("hchg", "mchg") and e["ck"] == "set" and i > 10
+                    and (e["e"] == "mchg" or True) and clean[i + 1]["e"] in ("hmm", "mix")
+                    and (clean[i + 1]["pi"], clean[i + 1]["tr"], clean[i + 1]["w"]) !=
+                        next(((p["pi"], p["tr"], p["w"]) for p in reversed(clean[:i]) if p["e"] in ("hmm", "mix")), None)), None)
+        if idx is None:
+            raise vlib.Infra("self-test: no parameter change event in the trace")
+        evs = [dict(e) for e in clean[:idx] + clean[idx + 1:idx + 6]]
+        badp = ctx.path("hmm_trace-corrupt.ndjson")
+        with open(badp, "w") as f:
+            for x in evs:
+                f.write(json.dumps(x) + "\n")
+        ok2, bad2, _ = vlib.validate_trace(ctx, "HMMTrace", "HMMTrace.cfg", "hmm_trace.ndjson", badp, label="selftest-dropchange")
+        if ok2 or bad2 != idx + 1:
+            raise vlib.Infra("binding self-test failed (dropped change): accepted=%s at=%s want=%s" % (ok2, bad2, idx + 1))
+        done.append("dropped-change@%d" % (idx + 1))
+        if len(done) < 4:
             raise vlib.Infra("binding self-test: too few corruptions exercised: %s" % done)
         ctx.extra["binding_selftest"] = "corrupted results rejected at the corrupted event: " + ", ".join(done)
     ctx.traces += total
@@ -227,6 +282,7 @@ def run(ctx):
     ctx.extra["replay_comparisons"] = comparisons
     ctx.extra["families"] = per_family
     ctx.extra["features_exercised"] = feats
+    ctx.extra["history_features_exercised"] = hfeats
     # information only (DESIGN 3.6): the library broke a Viterbi tie differently from the mechanism model
     ctx.extra["drift_viterbi_tiebreak"] = drift
     ctx.extra["recorded_events"] = len(clean)
@@ -273,7 +329,8 @@ MANIFEST = {
     "engine_text": "HMMCore.tla (contract: explicit enumeration of all hidden paths with exact integer/rational arithmetic; "
                    "mechanism: forward/backward, restricted forward pass, Viterbi with back-pointers, transcribed from "
                    "statistics/generic/hmm*.go), HMM.tla / Mixture.tla (case generation, mechanism = contract invariant), "
-                   "HMMTrace.tla (trace validation); Go driver harness/cmd/hmm",
+                   "HMMHist.tla (histories of calls and parameter changes on one object: state = current parameters + call log), "
+                   "HMMTrace.tla (trace validation, tracks the current parameters of long-lived objects); Go driver harness/cmd/hmm",
     "technique": "TLA+ contract + mechanism model checked by TLC on every generated case (exhaustive families by breadth-first "
                  "search, larger spaces by simulation); every case is printed with the values the contract demands and replayed "
                  "on the real library; recorded library calls are validated by a TLC trace specification",
@@ -287,6 +344,9 @@ MANIFEST = {
             "Posterior, Viterbi, ForwardBackward), on the float64-specialised recursion through one Baum-Welch step "
             "(likelihood, gamma, re-estimated Pi and Tr), on the vector/matrix distribution wrappers, the HMM and mixture "
             "classifiers and the constrained/hierarchical HMM with trivial constraints, comparing in the log domain to 1e-9. "
+            "HMMHist.tla keeps one mixture or HMM object alive through words of inference calls (recurring with identical "
+            "arguments) and parameter changes (SetParameters, SetStartStates, SetFinalStates, Clone): every call must equal the "
+            "enumeration for the parameters current at that moment, so state carried between calls is detected. "
             "Seeded random library calls are logged as fixed-point numbers and accepted by HMMTrace.tla, which re-enumerates "
             "the paths; corrupted logs are rejected. Bounded checking plus conformance, not a proof.",
     "note": "Trusted: TLC, CommunityModules Json, Go's math.Log/Exp, the driver's data records. Excluded by design: models with "
